@@ -45,6 +45,85 @@ K1_EXCEPT = {
 }
 
 
+def _div_guarded(P, f, tr):
+    """a DivisionByZero / RemainderByZero assert is unreachable when every path to it has established divisor != 0
+    (or a strict sign test); the MIN / -1 overflow assert when divisor != -1, divisor > -1.. or dividend != MIN holds."""
+    k = tr["kind"]
+    if not (k.startswith(("DivisionByZero", "RemainderByZero")) or k in ("Overflow:Div", "Overflow:Rem")):
+        return False
+    fx = FlowCx(P, f)
+    bi = tr["block"]
+    c = tr["term"]["cond"]
+    if c[0] == "k":
+        return False
+    defs = f.defs().get(c[1][0], [])
+
+    def fact_is(fact, vt, consts, rels):
+        if fact[0] != "cmp":
+            return False
+        _, op, a, b, _blk = fact
+        for x, y, o in ((a, b, op), (b, a, _FLIP.get(op, op))):
+            if x == vt and y and all(t in consts for t in y) and o in rels:
+                return True
+        return False
+    wanted = []   # (value tags, constants, relations): any one of them on every path discharges the trap
+    eqs = []
+    for d in defs:
+        rv = d[3]
+        if rv[0] == "bin" and rv[1] == "Eq":
+            eqs.append((rv[2], rv[3]))
+        elif rv[0] == "bin" and rv[1] == "BitAnd":
+            for o in (rv[2], rv[3]):
+                if o[0] != "k":
+                    for d2 in f.defs().get(o[1][0], []):
+                        if d2[3][0] == "bin" and d2[3][1] == "Eq":
+                            eqs.append((d2[3][2], d2[3][3]))
+    for val, kc in eqs:
+        if kc[0] != "k":
+            continue
+        cv = str(kc[1])
+        vt = fx.tags(val)
+        if cv == "0":
+            wanted.append((vt, {"const:0"}, ("Ne", "Gt", "Lt")))
+        if cv == "-1":
+            wanted.append((vt, {"const:-1"}, ("Ne", "Gt")))
+            wanted.append((vt, {"const:0"}, ("Gt", "Ge")))
+        if cv == "-9223372036854775808":
+            wanted.append((vt, {"const:-9223372036854775808"}, ("Ne", "Gt")))
+    if not wanted:
+        return False
+    return fx.every_path_has(bi, lambda fact: any(fact_is(fact, vt, cs, rels) for vt, cs, rels in wanted))
+
+
+def _divcall_guarded(P, f, tr):
+    """`a / b`, `a % b` on references to i64 (operator-trait call): both traps of the operation must be excluded on
+    every path - divisor != 0, and divisor != -1 or dividend != MIN (a strictly positive divisor excludes both)."""
+    if tr["kind"] not in ("DivisionByZero", "RemainderByZero"):
+        return False
+    args = tr["term"]["args"]
+    if len(args) != 2 or any(a[0] == "k" for a in args):
+        return False
+    fx = FlowCx(P, f)
+    at, bt = fx.tags(args[0]), fx.tags(args[1])
+    MIN = "const:-9223372036854775808"
+
+    def is_(fact, vt, consts, rels):
+        if fact[0] != "cmp":
+            return False
+        _, op, a, b, _blk = fact
+        for x, y, o in ((a, b, op), (b, a, _FLIP.get(op, op))):
+            if x == vt and y and all(t in consts for t in y) and o in rels:
+                return True
+        return False
+    zero = lambda fact: is_(fact, bt, {"const:0"}, ("Ne", "Gt", "Lt"))
+    ovf = lambda fact: (is_(fact, bt, {"const:-1"}, ("Ne", "Gt")) or is_(fact, bt, {"const:0"}, ("Gt", "Ge"))
+                        or is_(fact, at, {MIN}, ("Ne", "Gt")))
+    return fx.every_path_has(tr["block"], zero) and fx.every_path_has(tr["block"], ovf)
+
+
+_FLIP = {"Lt": "Gt", "Gt": "Lt", "Le": "Ge", "Ge": "Le", "Eq": "Eq", "Ne": "Ne"}
+
+
 def in_front(f):
     return f.id.startswith(FRONT) or any(("<" + x) in f.id for x in FRONT)
 
@@ -64,6 +143,8 @@ def run(ctx):
     # constant folding in the optimizer runs on every query too
     n1 = 0
     seen = {}
+    fam_traps = set()
+    nguard = [0]
     for fid in sorted(reach):
         f = P.fns[fid]
         if f.krate not in ("grafeo_core", "grafeo_engine", "grafeo_adapters", "grafeo_common"):
@@ -78,6 +159,11 @@ def run(ctx):
                 continue
             n1 += 1
             root = short_id(f.parent) if f.kind == "closure" else short_id(fid)
+            if "filter::" in fid:
+                fam_traps.add(k.split(":")[-1])
+            if (tr["how"] == "assert" and _div_guarded(P, f, tr)) or (tr["how"] == "op-call" and _divcall_guarded(P, f, tr)):
+                nguard[0] += 1
+                continue
             key = (root, k)
             n = seen[key] = seen.get(key, 0) + 1
             inst = "%s#%s[%d]" % (root, k, n)
@@ -106,9 +192,18 @@ def run(ctx):
                     o = rv[1 if rv[0] == "use" else 2]
                     if o[0] == "fn":
                         fam_calls.add(o[1])
-    for nm in ("checked_add", "checked_sub", "checked_mul", "checked_div", "checked_rem", "checked_neg"):
-        ctx.ob("K1", "ExpressionPredicate#%s" % nm, any(c.endswith("::" + nm) for c in fam_calls),
-               what="expression evaluation no longer uses i64::%s" % nm, where=ea.loc())
+    # anchor control (not a verdict): the evaluator still performs each integer operation in some form - a non-trapping
+    # method, or a trapping operator that the loop above has judged. If an operation is in neither form the rule
+    # has lost its subject and must not pass vacuously.
+    TRAP_OF = {"add": "Add", "sub": "Sub", "mul": "Mul", "div": "Div", "rem": "Rem", "neg": "OverflowNeg"}
+    for op in ("add", "sub", "mul", "div", "rem", "neg"):
+        forms = [pre + op for pre in ("checked_", "wrapping_", "saturating_", "overflowing_")]
+        present = any(c.endswith("::" + nm) for c in fam_calls for nm in forms) or TRAP_OF[op] in fam_traps \
+            or (op in ("div", "rem") and ("DivisionByZero" in fam_traps or "RemainderByZero" in fam_traps))
+        if not present:
+            raise CheckerError("C12-K1: no integer `%s` (checked, wrapping or trapping) found in expression evaluation: anchor lost" % op)
+        ctx.ob("K1", "ExpressionPredicate#%s" % op, True, what="integer %s is evaluated in a form K1 judges" % op, where=ea.loc())
+    ctx.note("K1: %d division/remainder traps discharged by dominating guards on their operands" % nguard[0])
 
     # ------------------------------------------------------------------ K2/K3
     counts = {}
